@@ -75,6 +75,38 @@ def extend(h, busy=False):
     return ops
 
 
+def directed():
+    """excess traffic must not keep anything alive: a sender goes over the per-topic limit on a topic that never starts and then keeps
+    trickling one (shed) message per epoch while the node stays busy on other topics; another sender has data on the same topic.
+    After more than two expiry periods the topic must be gone and nobody may be throttled.  (Same trace specification: the model
+    predicts the state after every operation.)"""
+    def op(e, s=0, t="", n=0, label=""):
+        return dict(e=e, s=s, t=t, n=n, label=label)
+    hs = []
+    for over in (LIMIT + 1, LIMIT + 2):
+        for victims in ([], [("T", 1)], [("T", 2), ("U", 1)]):
+            for trickle_on in (["T"], ["T", "U"]):
+                ops = []
+                for t in trickle_on:
+                    ops.append(op("recv", 1, t, over))
+                for (t, n) in victims:
+                    ops.append(op("recv", 2, t, n))
+                # the collector runs every EPOCHS epochs and discards what has been unused for MORE than EPOCHS epochs: data last used in
+                # epoch 0 goes in the collection of epoch 2 * EPOCHS -- the (shed) message of that very epoch arrives just before it
+                for i in range(2 * EPOCHS):
+                    ops.append(op("tick"))
+                    for t in trickle_on:
+                        ops.append(op("recv", 1, t, 1))
+                    ops.append(op("send", 0, FLUSH[i % 2]))
+                ops[-1] = dict(ops[-1], label="flushed")
+                for sd in SENDERS:
+                    for pt in PROBE:
+                        ops.append(op("recv", sd, pt, 1))
+                ops[-1] = dict(ops[-1], label="probed")
+                hs.append(ops)
+    return hs
+
+
 INV = ["CountWithinLimit", "TopicsWithinLimit", "Bookkeeping", "NoStaleAfterGC"]
 
 
@@ -111,7 +143,7 @@ def run(pid):
             for h in ops[k * 40:(k + 1) * 40]:
                 long += h
             hs.append(long)
-    histories = [extend(h, busy=(i % 2 == 1)) for i, h in enumerate(hs)]
+    histories = [extend(h, busy=(i % 2 == 1)) for i, h in enumerate(hs)] + directed()
     log("boxseq: %d histories generated by TLC (real constants), %d operations" % (len(histories), sum(len(h) for h in histories)))
     drv = vlib.build_harness()
     topics = WORK + FLUSH + PROBE
